@@ -25,7 +25,8 @@ Proof.
   destruct (construct_byset_ok _ _ _ _ _ Hc) as [Ec Hne].
   destruct c as [|num c']; [contradiction|].
   assert (Hnum : In num l /\ reach_test itv start base num = true).
-  { assert (In num (num :: c')) by (left; reflexivity). rewrite Ec in H. apply filter_In in H. exact H. }
+  { assert (In num (num :: c')) by (left; reflexivity). rewrite Ec in H. apply filter_In in H.
+    destruct H as [H1 H2]. split; [exact H1|]. unfold keep_test in H2. apply andb_true_iff in H2. apply H2. }
   destruct Hnum as [Hnl Hnr].
   apply (construct_byset_reachable itv start base num Hb Hi) in Hnr. destruct Hnr as [j [Hj Ej]].
   rewrite (Z.mod_small num base) in Ej by (apply Hrange; assumption).
